@@ -49,6 +49,9 @@ def step (s : St) (fs : List String) : St × String :=
         if s.nss.any (fun n => n.path == p && n.sealable) then
           let (s', ok) := sealOp s p v
           (s', if ok then "ok" else "err:sealed")
+        else if s.nss.any (fun n => n.path == p) then
+          -- a namespace without a seal of its own cannot be sealed (there would be no unseal): refused, nothing changes
+          (s, "err:notsealable")
         else (s, "bad-op")
       | _, _ => (s, "bad-op")
   | ["mount", ns, p, id] => match parseHex? ns, parseHex? p, id.toNat? with
